@@ -11,6 +11,7 @@ import (
 	"net/http/cookiejar"
 	"net/url"
 	"strings"
+	"sync/atomic"
 
 	"github.com/jcmturner/gofork/encoding/asn1"
 	"github.com/jcmturner/goidentity/v6"
@@ -45,6 +46,19 @@ func (e redirectErr) Error() string {
 type teeReadCloser struct {
 	io.Reader
 	io.Closer
+	n   *int64 // octets read so far
+	eof *int32 // set once the body has been read to its end
+}
+
+// Read notes how much of the body has been read and whether its end has been reached: only a body read completely
+// has a complete copy that can be replayed.
+func (t teeReadCloser) Read(p []byte) (int, error) {
+	n, err := t.Reader.Read(p)
+	atomic.AddInt64(t.n, int64(n))
+	if err == io.EOF {
+		atomic.StoreInt32(t.eof, 1)
+	}
+	return n, err
 }
 
 // NewClient returns a SPNEGO enabled HTTP client.
@@ -81,10 +95,12 @@ func NewClient(krb5Cl *client.Client, httpCl *http.Client, spn string) *Client {
 // Do is the SPNEGO enabled HTTP client's equivalent of the http.Client's Do method.
 func (c *Client) Do(req *http.Request) (resp *http.Response, err error) {
 	var body bytes.Buffer
+	var bodyLen int64
+	var bodyEnd int32
 	if req.Body != nil {
 		// Use a tee reader to capture any body sent in case we have to replay it again
 		teeR := io.TeeReader(req.Body, &body)
-		teeRC := teeReadCloser{teeR, req.Body}
+		teeRC := teeReadCloser{teeR, req.Body, &bodyLen, &bodyEnd}
 		req.Body = teeRC
 	}
 	resp, err = c.Client.Do(req)
@@ -118,6 +134,13 @@ func (c *Client) Do(req *http.Request) (resp *http.Response, err error) {
 			return resp, err
 		}
 		if req.Body != nil {
+			if atomic.LoadInt32(&bodyEnd) == 0 && (req.ContentLength <= 0 || atomic.LoadInt64(&bodyLen) < req.ContentLength) {
+				// The server answered before the whole body had been read from the caller (for instance to a request sent
+				// with "Expect: 100-continue"): the copy is incomplete and replaying it would silently truncate the body.
+				// (A body of known length is complete once that many octets have been copied, whether or not net/http
+				// has gone on to look for its end.)
+				return resp, errors.New("the server challenged before the request body had been sent completely; the body cannot be sent again")
+			}
 			// Refresh the body reader so the body can be sent again
 			req.Body = io.NopCloser(&body)
 		}
